@@ -112,7 +112,9 @@ func main() {
 		}
 		if w.ConnReturned && w.ConnErr != nil {
 			if st := w.Stalled(); len(st) > 0 {
-				run.Violation("stall-after-abort|"+cls+"|"+sess.StallClass(st), fmt.Sprintf("%s: after the abort and Disconnect a goroutine stays blocked forever: %v", id, st), rep)
+				// not part of the statement (error, nothing stored, nothing encrypted sent): a goroutine left
+				// blocked after the abort is counted as a diagnostic only
+				run.Count("diagnostic_goroutines_left_blocked_after_abort", 1)
 			}
 		}
 	}
